@@ -403,6 +403,7 @@ func (in *Interp) installStubs() {
 	in.installCtxStubs()
 	in.installLibStubs()
 	in.installReflectStubs()
+	in.installBoltStubs()
 	// errors: errors.New runs from its own SSA (it is &errorString{text}); fmt.Errorf builds a
 	// *fmt.wrapError (when %w wraps an error) or *errors.errorString with an opaque message.
 	in.stubs["fmt.Errorf"] = func(in *Interp, fn *ssa.Function, args []Value) Value {
